@@ -17,7 +17,7 @@ MAX_BLOCK_VISITS = 4000
 
 # ---------------------------------------------------------------------------- state
 class State:
-    __slots__ = ('heap', 'pc', 'stack', 'loopmode', 'loops', 'nobj', 'borrow_flat', 'notes')
+    __slots__ = ('heap', 'pc', 'stack', 'loopmode', 'loops', 'nobj', 'borrow_flat', 'notes', 'nopanic')
     def __init__(self):
         self.heap = {}
         self.pc = ()
@@ -27,6 +27,7 @@ class State:
         self.nobj = [1]
         self.borrow_flat = {}
         self.notes = ()
+        self.nopanic = frozenset()   # ids of path conditions whose failure certainly ends in a panic (`assert!(c)`): they hold in every execution that returns
     def clone(self):
         s = State.__new__(State)
         s.heap = dict(self.heap)
@@ -37,6 +38,7 @@ class State:
         s.nobj = self.nobj
         s.borrow_flat = dict(self.borrow_flat)
         s.notes = self.notes
+        s.nopanic = self.nopanic
         return s
     def alloc(self, v=None):
         i = self.nobj[0]
@@ -242,6 +244,7 @@ def loop_info(fn):
             if ipdom.get(b) != new:
                 ipdom[b] = new; ch = True
     fn['_ipdom'] = {b: (d if d != exit_ else None) for b, d in ipdom.items()}
+    fn['_noreturn'] = set(rpo) - seen2          # blocks from which no path reaches a return (every continuation panics)
     fn['_loops'] = loops
     return loops
 
@@ -1128,6 +1131,12 @@ class Interp:
             return None               # the join lies outside a loop the branch is in
         stops = {J} | (set(stop_at) if stop_at else set())
         outs = []
+        noret = fr.fn.get('_noreturn', set())
+        live = [(s2, tgt) for s2, tgt in branches if tgt not in noret]
+        if len(live) == 1 and len(branches) > 1:
+            # `if !c { panic!(..) }`: on the arm that continues, c is an assertion, not a branch condition
+            s2 = live[0][0]
+            s2.nopanic = s2.nopanic | frozenset(c.id for c in s2.pc[len(pre_pc):])
         for s2, tgt in branches:
             if tgt == J:
                 outs.append((s2, ('reach', J)))
@@ -1332,15 +1341,19 @@ class Interp:
         (state, block) continuations after summarisation."""
         fn = fr.fn
         lk = (fr.id, L['header'])
+        ind = None
         if not L['iters']:
-            raise Unsupported(f"loop without a recognised iterator in {fn['key']} (bb{L['header']})")
-        if len({l for l, _ in L['iters']}) != 1:
-            raise Unsupported(f"loop with several iterators in {fn['key']}")
-        itl = L['iters'][0][0]
-        it0 = st.heap[fr.locals[itl]]
-        desc = self.models.iter_describe(self, st, it0)
-        if desc is None:
-            raise Unsupported(f"unrecognised iterator value {it0!r} in {fn['key']}")
+            ind = self.induction(st, fr, L)          # `while i < n { ..; i += 1 }`
+            itl = None
+            desc = ind['desc']
+        else:
+            if len({l for l, _ in L['iters']}) != 1:
+                raise Unsupported(f"loop with several iterators in {fn['key']}")
+            itl = L['iters'][0][0]
+            it0 = st.heap[fr.locals[itl]]
+            desc = self.models.iter_describe(self, st, it0)
+            if desc is None:
+                raise Unsupported(f"unrecognised iterator value {it0!r} in {fn['key']}")
         n = desc['n']
         if n.is_const and n.val <= MAX_UNROLL:
             st.loopmode[lk] = 'unroll'
@@ -1355,7 +1368,7 @@ class Interp:
         register_range(k, rec.qvar[1], n)
         hv = {}
         for l in sorted(L['assigned']):
-            if l == itl or l == 0:
+            if l == itl or l == 0 or (ind is not None and l == ind['i']):
                 continue
             pre = st.heap[fr.locals[l]]
             name = fn['names'].get(str(l), f"_{l}")
@@ -1364,7 +1377,12 @@ class Interp:
         for l, (pre, h) in hv.items():
             body.heap[fr.locals[l]] = h
         body.assume(X.binop('lt', k, n))
-        body.heap[fr.locals[itl]] = Opaque('iter_mid', desc=desc, k=k, yielded=False)
+        if ind is None:
+            body.heap[fr.locals[itl]] = Opaque('iter_mid', desc=desc, k=k, yielded=False)
+        else:
+            ik = X.binop('add', ind['i0'], k, wrap=False) if not (ind['i0'].is_const and ind['i0'].val == 0) else k
+            body.heap[fr.locals[ind['i']]] = ik
+            body.assume(X.binop('lt', ik, ind['n']))          # the loop condition holds in the iterations that are summarised
         body.loopmode[lk] = 'iterate'
         body.loops = body.loops + (rec,)
         rec.pre_pc_len = len(st.pc)
@@ -1372,14 +1390,24 @@ class Interp:
             if isinstance(v, Buf):
                 rec.marks[o] = len(v.stores)
         body_start = dict(body.heap)
-        outs = self.exec_from(body, fr, L['header'], stop_at={L['header']} | L['exits'], first=True)
+        # (an exit that cannot reach a return is a failed assertion: it is executed to its recorded panic, it is not a `break`)
+        live_exits = L['exits'] - fn.get('_noreturn', set())
+        outs = self.exec_from(body, fr, L['header'], stop_at={L['header']} | live_exits, first=True)
         collected = []
-        early = [(s, oc) for s, oc in outs if oc[0] == 'reach' and oc[1] in L['exits']]
+        early = [(s, oc) for s, oc in outs if oc[0] == 'reach' and oc[1] in live_exits]
         if any(oc[0] == 'ret' for s, oc in outs):
             raise Unsupported(f"return from inside a summarised loop in {fn['key']}")
-        outs = [(s, oc) for s, oc in outs if not (oc[0] == 'reach' and oc[1] in L['exits'])]
+        outs = [(s, oc) for s, oc in outs if not (oc[0] == 'reach' and oc[1] in live_exits)]
         for s, oc in outs:
             rec.paths += 1
+            if ind is not None:
+                endv = s.heap.get(fr.locals[ind['i']])
+                want = X.binop('add', ik, X.const(ik.ty, 1), wrap=False)
+                if endv is not want:
+                    raise Unsupported(f"loop counter of {fn['key']} is not advanced by exactly one per iteration ({endv})")
+                pi, pn = ind['probe'](s)
+                if pi != ind['i'] or pn is not ind['n']:          # the bound read at the top of the next iteration is the same value
+                    raise Unsupported(f"the bound of the counted loop in {fn['key']} changes between iterations")
             guard = s.pc[rec.pre_pc_len:]
             for o, v in s.heap.items():
                 if isinstance(v, Buf) and o in rec.marks:
@@ -1392,15 +1420,22 @@ class Interp:
         ex = st.clone()
         for l, (pre, h) in hv.items():
             ex.heap[fr.locals[l]] = h
-        ex.heap[fr.locals[itl]] = Opaque('iter_done', desc=desc)
+        if ind is None:
+            ex.heap[fr.locals[itl]] = Opaque('iter_done', desc=desc)
+        else:
+            iend = ind['iend']
+            ex.heap[fr.locals[ind['i']]] = iend
+            c_end = X.binop('lt', iend, ind['n'])
+            if not (c_end.is_const and not c_end.val):
+                ex.assume(X.unop('not', c_end))
         ex.loopmode[lk] = 'exit'
-        self.summarise_stores(rec, st, ex, collected)
+        self.summarise_stores(rec, st, ex, collected, {s.pc: s.nopanic for s, oc in outs})
         self.check_interference(rec, ex)
         conts = []
         if early:
             # a SEARCH loop: some iteration may leave the loop (break / return).  Supported when the iterations that
             # continue have no effect at all; the loop then is  `if exists k: G(k) { leave } else { fall through }`.
-            local_objs = {fr.locals[l] for l in L['assigned']} | {fr.locals[itl]}
+            local_objs = {fr.locals[l] for l in L['assigned']} | ({fr.locals[itl]} if itl is not None else set())
             touched = any(o not in local_objs and s_.heap.get(o, self) is not v for s_, oc_ in outs for o, v in body_start.items())
             if collected or touched:
                 raise Unsupported(f"early exit from a loop whose other iterations have effects in {fn['key']}")
@@ -1463,8 +1498,75 @@ class Interp:
                 return conts
         return conts + [(ex, L['header'])]
 
-    def summarise_stores(self, rec, st, ex, collected):
-        """turn the stores made during one symbolic iteration into quantified store summaries of the exit state"""
+    def induction(self, st, fr, L):
+        """counted loop  `while i < n { ..; i += 1 }`  (no iterator).  The blocks from the header to the first branch
+        are interpreted once with every loop-assigned integer local replaced by a marker symbol; the branch condition
+        must then read  marker_i < N  with N free of markers (the bound may be recomputed in the header, e.g. `v.len()`),
+        its false side must leave the loop.  That every iteration adds exactly one to i is checked afterwards on the
+        symbolic iteration itself.  Returns the description of the equivalent range."""
+        fn = fr.fn
+        blocks = fn['blocks']
+        bad = Unsupported(f"loop without a recognised iterator in {fn['key']} (bb{L['header']})")
+        # straight-line chain header -> ... -> first switch
+        bsw = L['header']
+        seen = set()
+        while blocks[bsw]['t']['k'] != 'switch':
+            t = blocks[bsw]['t']
+            nxt = successors(t)
+            if t['k'] not in ('goto', 'call', 'assert', 'drop') or len(nxt) != 1 or bsw in seen or nxt[0] not in L['blocks']:
+                raise bad
+            seen.add(bsw); bsw = nxt[0]
+        t = blocks[bsw]['t']
+        tgt0 = [tt for v, tt in t['targets'] if str(v) == '0']
+        if not tgt0 or tgt0[0] in L['blocks'] or t['otherwise'] not in L['blocks'] or len(t['targets']) != 1:
+            raise bad
+        def probe_bound(st_):
+            probe = st_.clone()
+            markers = {}
+            for l in L['assigned']:
+                v = probe.heap.get(fr.locals[l])
+                if isinstance(v, E) and X.is_int(v.ty):
+                    m = X.fresh(v.ty, 'ind')
+                    markers[m.id] = l
+                    probe.heap[fr.locals[l]] = m
+            snap = (len(self.rec.obligations), len(self.rec.panics), len(self.rec.unsafe_ops), len(self.rec.events), len(self.rec.loops))
+            probe.loopmode = dict(probe.loopmode); probe.loopmode[(fr.id, L['header'])] = 'iterate'
+            try:
+                outs = self.exec_from(probe, fr, L['header'], stop_at={tgt0[0], t['otherwise']}, first=True)
+            finally:
+                del self.rec.obligations[snap[0]:]; del self.rec.panics[snap[1]:]; del self.rec.unsafe_ops[snap[2]:]; del self.rec.events[snap[3]:]; del self.rec.loops[snap[4]:]
+            cond = None
+            for s_, oc in outs:
+                if oc[0] == 'reach' and oc[1] == t['otherwise'] and len(s_.pc) > len(st_.pc):
+                    cond = s_.pc[-1]
+            if cond is None or cond.op not in ('lt', 'gt'):
+                raise bad
+            A, B = cond.args if cond.op == 'lt' else (cond.args[1], cond.args[0])
+            if A.id not in markers or any(n_.id in markers for n_ in X.walk(B)):
+                raise bad
+            return markers[A.id], B
+        i, B = probe_bound(st)
+        i0 = st.heap[fr.locals[i]]
+        nv = B
+        if not (isinstance(i0, E) and X.is_int(i0.ty)):
+            raise bad
+        if nv.ty != i0.ty:
+            raise bad
+        if i0.is_const and i0.val == 0:
+            cnt, iend = nv, nv
+        elif i0.is_const and nv.is_const:
+            cnt = X.const(nv.ty, max(0, nv.val - i0.val)); iend = X.const(nv.ty, max(nv.val, i0.val))
+        else:
+            d = X.binop('sub', nv, i0, wrap=False)
+            cnt = X.node('imax', (d, X.const(nv.ty, 0)), nv.ty)
+            iend = X.node('imax', (nv, i0), nv.ty)
+        desc = dict(kind='range', n=cnt, elem=lambda st2, kk, i0=i0: X.binop('add', i0, kk, wrap=False), start=i0, end=nv)
+        return dict(i=i, i0=i0, n=nv, iend=iend, desc=desc, probe=probe_bound)
+
+    def summarise_stores(self, rec, st, ex, collected, nopanic={}):
+        """turn the stores made during one symbolic iteration into quantified store summaries of the exit state.
+        `nopanic`: per path of the iteration, the conditions it asserts (their failure panics): in an execution that
+        returns they held in every iteration, so they do not make a store conditional."""
         from .resolve import deflatten_store
         # dedupe stores (same Store object reached on several paths after it was made)
         seen = set()
@@ -1497,7 +1599,8 @@ class Interp:
         uniq = [x for x in uniq if x[1].seq not in merged_away] + extra
         uniq.sort(key=lambda x: x[1].seq)
         for o, stv, pc in uniq:
-            g = stv.pc[rec.pre_pc_len:] + stv.guard
+            np_ = nopanic.get(pc, ())
+            g = tuple(c for c in stv.pc[rec.pre_pc_len:] if c.id not in np_) + stv.guard
             new = Store(stv.index, stv.value, g, stv.qvars + (rec.qvar,), stv.flat, ex.pc, stv.site)
             rec.raw_stores.append((o, new))
             if new.flat:
